@@ -1,9 +1,10 @@
 """C06 — every emitted packet is well-formed and authenticated for its recipient."""
 from props import _worldprop as WP
 ID = "C06"
-LEAN_TARGETS = ["Rsp.Props.C06"]
+LEAN_TARGETS = ["Rsp.Props.C06", "Rsp.Props.C06RoundTrip"]
 THEOREMS = ["Rsp.Radmsg.splice_getElem?", "Rsp.Radmsg.splice_splice", "Rsp.Props.C06.stage1_props", "Rsp.Props.C06.serialize_length",
-            "Rsp.Props.C06.serialize_resp_auth", "Rsp.Props.C06.serialize_msgauth"]
+            "Rsp.Props.C06.serialize_resp_auth", "Rsp.Props.C06.serialize_msgauth",
+            "Rsp.Radmsg.parseAttrs_attrsBytes", "Rsp.Radmsg.parse_rawPacket"]
 RULE = ("histories through the real radsrv/replyh/clientwr with fake transports; every forwarded request (fwd), transmission (send), delivered/local/replayed reply (out) "
         "is judged by Spec.requestOk / Spec.replyOk on the implementation's bytes; inputs biased to 4000..4096 octets with growing rules, modify results past 253, vendor "
         "growth, Proxy-State echo, Status-Server probes; serializer also called directly. non-trivial = history with at least one emission")
